@@ -2,7 +2,7 @@
 REG = dict(
     engine='E1-enum',
     technique='bounded-exhaustive enumeration of (fixable lint trigger x placement) programs and of trigger pairs; `check --fix` is applied by the real code (iterated to a fixed point), each result is parsed and run on the real interpreter and compared with the original run',
-    text='Triggers for every lint that carries an autofix (unused literal of 5 shapes, unused let with pure / effectful / literal value, unused for variable / closure parameter / match payload / destructured name / function parameter, unused import, unused type parameter, unnecessary let, unnecessary return, repeated boolean operand in 6 shapes, list-length comparison in 4 shapes, unreachable match arm, missing match cases, and the type-checker fixes `+`/`+.`/`^` and method-name / missing-call suggestions in dead code) x placements (own line, same line before / after other code, last expression of a function / if branch / loop body, nested two deep, one-line nested, inside a call argument list (closure), next to comments, twice on one line, inside a closure, inside a match arm, at top level, in a test); every ordered pair of triggers on adjacent lines and on one line (thorough: also inside a closure, separated by a comment line, on one line inside a nested block, and pairs involving item-level triggers). Oracle: every round of --fix yields a program that parses; if the original ran without error every round has the same stdout, function result and test verdicts; a fixed point is reached in <=5 rounds; violations are re-run through `garden check --fix --stdout`.',
+    text='Triggers for every lint that carries an autofix (unused literal of 5 shapes, unused let with pure / effectful / literal value, unused for variable / closure parameter / match payload / destructured name / function parameter, unused import, unused type parameter, unnecessary let, unnecessary return, repeated boolean operand in 6 shapes, list-length comparison in 5 shapes (and 8 order comparisons of a length with 0 or 1, which need no fix), unreachable match arm, missing match cases, and the type-checker fixes `+`/`+.`/`^` and method-name / missing-call suggestions in dead code) x placements (own line, same line before / after other code, last expression of a function / if branch / loop body, nested two deep, one-line nested, inside a call argument list (closure), next to comments, twice on one line, inside a closure, inside a match arm, at top level, in a test); every ordered pair of triggers on adjacent lines and on one line (thorough: also inside a closure, separated by a comment line, on one line inside a nested block, and pairs involving item-level triggers). Oracle: every round of --fix yields a program that parses; if the original ran without error every round has the same stdout, function result and test verdicts; a fixed point is reached in <=5 rounds; violations are re-run through `garden check --fix --stdout`.',
     note='Programs are ASCII text templates; the type-checker fixes are placed in dead code (the original must run without error for the behaviour clause to apply).',
     design_ref='DESIGN.md §6 C22',
 )
@@ -76,6 +76,16 @@ EXPR = [
     ("len() != 0", "list-len", "es.len() != 0"),
     ("(len()) == 0", "list-len", "(xs.len()) == 0"),
     ("len() == 0 with comment", "list-len", "xs.len() == // c\n    0"),
+    # order comparisons of a length with 0 / 1 in both operand orders: no fix is required for them (the lint is about == and !=),
+    # but whatever is offered must keep the value, which differs between `len > 0` and `0 > len`
+    ("len() > 0", "list-len/after-use", "xs.len() > 0"),
+    ("0 > len()", "list-len/after-use", "0 > xs.len()"),
+    ("0 < len()", "list-len/after-use", "0 < es.len()"),
+    ("len() < 0", "list-len/after-use", "es.len() < 0"),
+    ("len() >= 1", "list-len/after-use", "xs.len() >= 1"),
+    ("1 > len()", "list-len/after-use", "1 > xs.len()"),
+    ("len() <= 0", "list-len/after-use", "es.len() <= 0"),
+    ("0 >= len()", "list-len/after-use", "0 >= xs.len()"),
 ]
 # item-level triggers: (name, lint, item text, statement that uses it)
 ITEM = [
